@@ -118,3 +118,15 @@ package interp
 //@   ensures then-the-effective-path: !existsAt(interp.opt.filesystem, vdir) && existsAt(interp.opt.filesystem, edir) ==> err == nil && dir == edir && rPath == root
 //@   ensures nothing-found-at-the-top-is-an-error: !existsAt(interp.opt.filesystem, vdir) && !existsAt(interp.opt.filesystem, edir) && root == "" ==> err != nil
 //@   canary err == nil ==> rPath == root
+
+// gta, `var x T` without initialiser: the symbol of every declared name is a global variable whose node is
+// the DECLARATION — that is the node getVarDependencies collects and genGlobalVarDecl orders by, so that the
+// zeroing of x runs before every initialiser that refers to x.
+//@ lit Interpreter.gta case:valueSpec () ()
+//@   props C15 C11
+//@   opt safety = off
+//@   opt opaque-calls = *
+//@   opt opaque-havoc = none
+//@   requires [assume] n != nil && sc != nil && sc.sym != nil && len(n.child) >= 1 && forall(k, 0, len(n.child), n.child[k] != nil && n.child[k] != n)
+//@   loop 1 index k
+//@   step [next] declared-name-is-a-global-variable-symbol-of-the-declaration: has(sc.sym, c.ident) && sc.sym[c.ident] != nil && sc.sym[c.ident].global && sc.sym[c.ident].kind == varSym && sc.sym[c.ident].node == n && sc.sym[c.ident].typ == n.typ
